@@ -557,7 +557,6 @@ impl Array {
         // else if all dimensions match
         // else (broadcast)
         } else {
-            let mut flat_indices = vec![0; arrays.len()];
             let mut slices: Vec<&[Float]> = arrays
                 .iter()
                 .zip(&group_lengths)
@@ -565,36 +564,40 @@ impl Array {
                 .collect();
 
             for _ in 0..leading_length {
+                // slice each array at its own leading indices, aligned from the last leading dimension,
+                // with index 0 along broadcast dimensions
+                for ((slice, array), group_length) in
+                    slices.iter_mut().zip(&arrays).zip(&group_lengths)
+                {
+                    let array_leading_count =
+                        array.dimensions.len().saturating_sub(op_dimension_count);
+                    let skipped_count = array_leading_count.saturating_sub(leading_count);
+                    let index_offset = leading_count + skipped_count - array_leading_count;
+                    let index = array.dimensions[skipped_count..array_leading_count]
+                        .iter()
+                        .enumerate()
+                        .fold(0, |acc, (j, d)| {
+                            acc * d + if *d == 1 { 0 } else { indices[index_offset + j] }
+                        });
+
+                    *slice = &array.values[index * group_length..(index + 1) * group_length];
+                }
+
                 let output_offset = flatten_indices(&indices, &output_dimensions);
                 let output_slice =
                     &mut output_values[output_offset..output_offset + output_group_length];
 
                 op(output_slice, &slices);
 
-                for (i, (x, d)) in indices
+                for (x, d) in indices
                     .iter_mut()
                     .zip(input_dimensions)
-                    .enumerate()
                     .rev()
                     .skip(op_dimension_count)
                 {
                     if *x == *d - 1 {
                         *x = 0;
                     } else {
-                        for (((index, slice), array), group_length) in flat_indices
-                            .iter_mut()
-                            .zip(slices.iter_mut())
-                            .zip(&arrays)
-                            .zip(&group_lengths)
-                        {
-                            if i < array.dimensions.len().saturating_sub(op_dimension_count)
-                                && array.dimensions[i] != 1
-                            {
-                                *index += group_length;
-                                *slice = &array.values[*index..*index + group_length];
-                            }
-                        }
-
                         *x += 1;
                         break;
                     }
